@@ -347,7 +347,7 @@ func reachable(v Value, seen map[*Obj]bool, seenC map[Container]bool) {
 			reachable(f, seen, seenC)
 		}
 	case *SliceV:
-		if x.arr != nil {
+		if x.arr != nil && x.len > 0 { // an empty slice exposes no byte of its array
 			if o := x.arr.own; o != nil {
 				if !seen[o] {
 					seen[o] = true
